@@ -249,6 +249,14 @@ def impl_query(conv, step):
     if m in NO_MODES:
         return getattr(conv, m)(*args)
     if m == "parse_uri":
+        if step.get("legacy"):
+            # the deprecated calling convention: without return_none a miss is the pair (None, None) plus a warning
+            import warnings
+
+            with warnings.catch_warnings():
+                warnings.simplefilter("ignore")
+                r = conv.parse_uri(*args, strict=s)
+            return None if r is None or tuple(r) == (None, None) else tuple(r)
         r = conv.parse_uri(*args, strict=s, return_none=True)
         return None if r is None else tuple(r)
     if m in ("parse", "parse_curie"):
@@ -322,6 +330,11 @@ def roundtrip_impl(conv, fmt, syn, expand):
         os.rmdir(d)
 
 
+def loader_kwargs(st) -> dict:
+    """The keyword arguments a loader step passes on to Converter.__init__ (only those the step spells out)."""
+    return {"delimiter": uncps(st["delim"])} if "delim" in st else {}
+
+
 def as_container(items: list, how: str):
     """The same items in another container type: the functions take any iterable (chain: any sequence)."""
     if how == "tuple":
@@ -392,10 +405,11 @@ def run_impl(steps: list[dict], injected: dict | None = None, observer=None) -> 
                     data = (x for x in data)
                 elif how == "dict_values":
                     data = {i: x for i, x in enumerate(data)}.values()
+                kw = {"delimiter": uncps(st["delim"])} if st.get("delim", [58]) != [58] else {}
                 if st["via"] == "load_epm":
-                    slots[st["dst"]] = curies.load_extended_prefix_map(data)
+                    slots[st["dst"]] = curies.load_extended_prefix_map(data, **kw)
                 else:
-                    slots[st["dst"]] = Converter.from_extended_prefix_map(data)
+                    slots[st["dst"]] = Converter.from_extended_prefix_map(data, **kw)
                 out.append(None)
             elif op == "init":
                 if st.get("same_list_as") is not None and st["same_list_as"] in kept_lists:
@@ -493,13 +507,14 @@ def run_impl(steps: list[dict], injected: dict | None = None, observer=None) -> 
                 out.append(None)
             elif op == "load_priority":
                 slots[st["dst"]] = Converter.from_priority_prefix_map(
-                    {uncps(k): [uncps(x) for x in v] for k, v in st["data"]})
+                    {uncps(k): [uncps(x) for x in v] for k, v in st["data"]}, **loader_kwargs(st))
                 out.append(None)
             elif op == "load_reverse":
-                slots[st["dst"]] = Converter.from_reverse_prefix_map({uncps(k): uncps(v) for k, v in st["data"]})
+                slots[st["dst"]] = Converter.from_reverse_prefix_map({uncps(k): uncps(v) for k, v in st["data"]},
+                                                                     **loader_kwargs(st))
                 out.append(None)
             elif op == "load_jsonld":
-                slots[st["dst"]] = Converter.from_jsonld({"@context": jsonld_context(st["data"])})
+                slots[st["dst"]] = Converter.from_jsonld({"@context": jsonld_context(st["data"])}, **loader_kwargs(st))
                 out.append(None)
             elif op == "load_upgrade":
                 slots[st["dst"]] = Converter(curies.upgrade_prefix_map({uncps(k): uncps(v) for k, v in st["data"]}))
@@ -634,11 +649,13 @@ def show_program(steps) -> list[str]:
             dl = f", delimiter={uncps(st['delim'])!r}" if op == "load_pm" and "delim" in st else ""
             out.append(f"c{st.get('dst', '')} = {op}({ {uncps(k): uncps(v) for k, v in st['data']} }{dl})")
         elif op == "load_priority":
-            out.append(f"c{st['dst']} = from_priority_prefix_map({ {uncps(k): [uncps(x) for x in v] for k, v in st['data']} })")
+            dl = f", delimiter={uncps(st['delim'])!r}" if "delim" in st else ""
+            out.append(f"c{st['dst']} = from_priority_prefix_map({ {uncps(k): [uncps(x) for x in v] for k, v in st['data']} }{dl})")
         elif op == "load_jsonld":
             out.append(f"c{st['dst']} = from_jsonld({{'@context': {jsonld_context(st['data'])!r}}})")
         elif op == "q":
-            flags = ("" if not st.get("s") else ", strict=True") + ("" if not st.get("p") else ", passthrough=True")
+            flags = ("" if not st.get("s") else ", strict=True") + ("" if not st.get("p") else ", passthrough=True") + \
+                (" [return_none left at its default]" if st.get("legacy") else "")
             wrap = (lambda x: f"UserStr({x})") if st.get("cls") == "sub" else (lambda x: x)
             out.append(f"c{st['c']}.{st['m']}({', '.join(wrap(repr(uncps(a))) for a in st.get('a', []))}{flags})")
         else:
